@@ -465,7 +465,14 @@ def run(ctx):
                        'ElasticConstants; format routing of dump/load. Not decided: the third-party JSON/XML encoders and dtypes after the text round trip.')
     # reading a system model goes through System.__init__ with the symbols and masses of the file: lists longer than the atom types in use are kept in full
     from .c06 import construct_lists
-    ctx.run_rules([uc_model, box_model, atoms_model, system_model, ec_model, fmt, lambda c: construct_lists(c, 'SYSTEM-MODEL'), _ec_normalized,
+    # the unit named in a model is evaluated by parse() when it is written and again when it is read, under other working units: the number stored is in that unit only
+    # if the expression is evaluated with ordinary precedence (the rule of C09, run here on the same source)
+    from . import c09 as _c09
+
+    def _precedence(c):
+        _c09._MOD[0] = c.mod(UC)
+        _c09.precedence(c)
+    ctx.run_rules([uc_model, box_model, atoms_model, system_model, ec_model, fmt, lambda c: construct_lists(c, 'SYSTEM-MODEL'), _ec_normalized, _precedence,
                    lambda c: __import__('amverif.lints', fromlist=['x']).fresh_results(c, 'UC-MODEL', UC, floor=9, what='a value computed from the working units in force at the time of the call (a model is written under one set of working units and read under another)'),
                    # a value written without a unit, or a single number, goes through the same writer: array-like in, plain Python values in the model
                    lambda c: __import__('amverif.lints', fromlist=['x']).arraylike(c, 'ARRAY-LIKE', UC, floor=4, extra_converters=('get_in_units', 'set_in_units')),
